@@ -260,11 +260,52 @@ func expandPredicateHelpersKeep(c *chk.Ctx, conds []ir.Cond, depth int, keep fun
 					}
 					if (s == want) == (op == token.EQL) {
 						pred := phi.Block().Preds[i]
-						picked = append(picked, expandPredicateHelpersKeep(c, ir.EdgeConds(pred, phi.Block()), depth+1, keep)...)
+						// (every way into the choosing block: it may be the body of an `a || b` test)
+						own, hasOwn := ir.EdgeOwnCond(pred, phi.Block())
+						for _, alt := range ir.CondAltsAt(pred) {
+							cs := append([]ir.Cond{}, alt...)
+							if hasOwn {
+								cs = append(cs, ir.NormConds([]ir.Cond{own})...)
+							}
+							picked = append(picked, expandPredicateHelpersKeep(c, cs, depth+1, keep)...)
+						}
 					}
 				}
 				if allConst && len(picked) > 0 {
 					repl = picked
+				}
+			}
+		}
+		// a string result of a private helper compared with a constant (`info, problem :=
+		// check(fn); problem != ""`): the helper's returns whose constant satisfies the test
+		if x, y, op, isRel := ir.Rel(cd); isRel && repl == nil && depth < 3 && (op == token.EQL || op == token.NEQ) {
+			e, isE := x.(*ssa.Extract)
+			want, isK := constString(y)
+			if !isE {
+				e, isE = y.(*ssa.Extract)
+				want, isK = constString(x)
+			}
+			if isE && isK {
+				if call, isCall := e.Tuple.(*ssa.Call); isCall {
+					if h := call.Call.StaticCallee(); h != nil && c.P.InRepo[h] && !ir.Exported(h) && e.Index < h.Signature.Results().Len() {
+						allConst := true
+						var picked [][]ir.Cond
+						for _, r := range ir.Returns(h) {
+							s, isS := constString(ir.ReturnResult(r, e.Index))
+							if !isS {
+								allConst = false
+								break
+							}
+							if (s == want) == (op == token.EQL) {
+								for _, alt := range ir.CondAltsAt(r.Block()) {
+									picked = append(picked, expandPredicateHelpersKeep(c, alt, depth+1, keep)...)
+								}
+							}
+						}
+						if allConst && len(picked) > 0 {
+							repl = picked
+						}
+					}
 				}
 			}
 		}
@@ -572,7 +613,7 @@ func ruleBridgeIDs(c *chk.Ctx) {
 			// responses are appended after the Batch call, error objects before it
 			after := false
 			c.P.ExtCalls(f, func(ci ssa.CallInstruction) {
-				if g := ci.Common().StaticCallee(); g != nil && g.Name() == "Batch" && ir.InstrDominates(ci, call) {
+				if g := ci.Common().StaticCallee(); g != nil && g.Name() == "Batch" && (ir.InstrDominates(ci, call) || (ci.Parent() != call.Parent() && c.P.IDominates(ci, call))) {
 					after = true
 				}
 			})
@@ -978,6 +1019,62 @@ func ruleGetterStatus(c *chk.Ctx) {
 				}
 			}
 		})
+		// or the marshalled bytes and the marshal error travel together in a small reply
+		// record: the body field is written where the record's error field is known nil, and
+		// the two fields are only ever filled from the two results of one json.Marshal
+		if !okBody {
+			fieldOf := func(v ssa.Value) (*types.Var, ssa.Value) {
+				if u, ok := v.(*ssa.UnOp); ok && u.Op == token.MUL {
+					if fa, ok := u.X.(*ssa.FieldAddr); ok {
+						return ir.FieldVar(fa), fa.X
+					}
+				}
+				return nil, nil
+			}
+			c.P.ExtCalls(wj, func(ci ssa.CallInstruction) {
+				cc := ci.Common()
+				if !cc.IsInvoke() || cc.Method.Name() != "Write" || len(cc.Args) != 1 {
+					return
+				}
+				bodyF, base := fieldOf(cc.Args[0])
+				if bodyF == nil {
+					return
+				}
+				var errF *types.Var
+				for _, cd := range ir.CondsAt(ci.Block()) {
+					if x, eq, isCmp := ir.NilCompare(cd.V); isCmp && eq == cd.Truth {
+						if fv, b2 := fieldOf(x); fv != nil && b2 == base {
+							errF = fv
+						}
+					}
+				}
+				if errF == nil {
+					return
+				}
+				stores := c.P.FieldStores(bodyF)
+				all := len(stores) > 0
+				for _, bs := range stores {
+					good := false
+					if e, ok := bs.Val.(*ssa.Extract); ok && e.Index == 0 {
+						if call, ok := e.Tuple.(*ssa.Call); ok && ir.IsCallTo(&call.Call, "encoding/json.Marshal") {
+							bfa, _ := bs.Addr.(*ssa.FieldAddr)
+							for _, es := range c.P.FieldStores(errF) {
+								efa, _ := es.Addr.(*ssa.FieldAddr)
+								if bfa != nil && efa != nil && efa.X == bfa.X && ir.IsExtractOf(es.Val, call, 1) {
+									good = true
+								}
+							}
+						}
+					}
+					if !good {
+						all = false
+					}
+				}
+				if all {
+					okBody = true
+				}
+			})
+		}
 		c.Check(okBody, "TABLE.getter", wj, "JSON bodies", wj.Pos(), "the body written is json.Marshal's result on its err == nil edge", "the body written by writeJSON is not a checked json.Marshal result")
 	}
 }
@@ -1601,9 +1698,8 @@ func ruleRecvClosesBody(c *chk.Ctx) {
 func ruleQuerySliceBounds(c *chk.Ctx) {
 	n := 0
 	for _, f := range pkgFuncs(c, c.M.JhttpPkg) {
-		if f.Parent() != nil || !strings.HasPrefix(f.Name(), "parse") {
-			continue
-		}
+		// (every function of the HTTP package, whatever it is called: the value parsers are
+		// the only ones that slice strings by computed bounds)
 		ir.Instrs(f, func(ins ssa.Instruction) {
 			sl, ok := ins.(*ssa.Slice)
 			if !ok || sl.X.Type().String() != "string" || sl.Low == nil || sl.High == nil {
@@ -1683,7 +1779,9 @@ func ruleQuerySliceBounds(c *chk.Ctx) {
 		})
 	}
 	if n == 0 {
-		c.Undecided("PROV.bounds", nil, "query value slices", 0, "no s[a:len(s)-b] slice found in the query parsers")
+		// nothing is cut out of a query value by computed bounds (the quotes may be removed
+		// with strings.CutPrefix / CutSuffix, which cannot go out of range)
+		c.Pass("PROV.bounds", nil, "query value slices", 0, "no s[a:len(s)-b] slice in the HTTP package: nothing to bound")
 	}
 }
 
@@ -1787,6 +1885,27 @@ func isStatusWriterHelper(c *chk.Ctx, g *ssa.Function) bool {
 			found = true
 		}
 	})
+	if found {
+		return true
+	}
+	// or through private helpers of its own (a reply record with a writeTo method): some
+	// WriteHeader in them is given a value that comes from the code parameter
+	for _, h := range c.P.Ext(g) {
+		if h == g {
+			continue
+		}
+		ir.Calls(h, func(ci ssa.CallInstruction) {
+			cc := ci.Common()
+			if !cc.IsInvoke() || cc.Method.Name() != "WriteHeader" || len(cc.Args) != 1 {
+				return
+			}
+			for _, src := range c.P.SourcesStop(cc.Args[0], func(v ssa.Value) bool { return v == ssa.Value(g.Params[1]) }) {
+				if src == ssa.Value(g.Params[1]) {
+					found = true
+				}
+			}
+		})
+	}
 	return found
 }
 
